@@ -27,7 +27,7 @@ PROPERTY = "C15"
 LEVEL = "fault_enumeration"
 DETERMINISM_CASES = 1
 RULE = ("cases = 3 histories x budget variants (up --migrate: 2x2 backup/target-file variants; init: 3 settings variants x 2 x 2; layout migration: "
-        "data/output present or not x ./tally absent/empty/non-empty); per case every prefix of the recorded effect log is a crash point (x torn "
+        "data/output present or not x ./tally absent/empty/non-empty, a budget that went through the CSV migration first, two half-migrated budgets whose ./tally already holds same-named files); per case every prefix of the recorded effect log is a crash point (x torn "
         "variants half/nothing for effects that land data) and every effect is an OSError injection point; evaluations = fault runs executed on the "
         "real code; non-trivial = fault runs whose resulting tree differs from both the initial and the completed tree, counted as distinct trees")
 ASSUMPTIONS = ["a crash is modelled as: no further file-system effect reaches the disk (completed writes are durable; OS-level reordering is not modelled - tally never fsyncs)",
@@ -97,6 +97,15 @@ def budgets():
                 elif tally == "nonempty":
                     f["tally/notes.txt"] = "my notes\n"
                 out.append({"history": "layout", "name": f"data={data} output={outp} tally={tally}", "files": f})
+    # a budget found half-way: tally/ already holds data/ and output/ with same-named files of other bytes (what an interrupted earlier
+    # migration plus a freshly dropped export leave behind); both generations of every file are user content
+    for outp in (0, 1):
+        f = {"config/settings.yaml": SETTINGS_RULES, "config/merchants.rules": RULES, "data/s.csv": STMT,
+             "tally/data/s.csv": STMT.replace("\n", "\r\n"), "tally/data/older.csv": "Date,Description,Amount\n"}
+        if outp:
+            f["output/old_report.html"] = "<html>old report</html>\n"
+            f["tally/output/old_report.html"] = "<html>older report</html>\n"
+        out.append({"history": "layout", "name": f"half-migrated: same names under tally/, output={outp}", "files": f})
     return out
 
 
